@@ -35,6 +35,24 @@ pub fn tup3_shapes() -> String {
     format!("x {} ; x {} ; x {}", t.0.shape(false), t.1.shape(false), t.2.shape(false))
 }
 
+/// derived rows, default (by-name) flavor: every bind marker takes the value of the like-named field
+#[derive(scylla::SerializeRow)]
+struct RowAB {
+    a: i32,
+    b: String,
+}
+#[derive(scylla::SerializeRow)]
+struct RowABC {
+    a: i32,
+    b: String,
+    c: Vec<i32>,
+}
+pub fn struct_shapes(n: usize) -> String {
+    let t = tup3_value();
+    let all = [format!("a x {}", t.0.shape(false)), format!("b x {}", t.1.shape(false)), format!("c x {}", t.2.shape(false))];
+    all[..n].join(" ; ")
+}
+
 fn parse_ref(r: &str) -> Option<(u8, u32)> {
     let (k, v) = r.split_once(':')?;
     Some((k.parse().ok()?, v.parse().ok()?))
@@ -58,7 +76,7 @@ fn run_bindrow(case: &str, ctx: &mut Ctx) -> String {
     let rctx = RowSerializationContext::from_specs(&specs);
     // the values (as CqlValues: positional, or keyed)
     let mut vals: Vec<(String, CqlValue)> = Vec::new();
-    let fixed_kind = matches!(kind, "tup3" | "tup2" | "tup1" | "unit" | "u80");
+    let fixed_kind = matches!(kind, "tup3" | "tup2" | "tup1" | "unit" | "u80" | "struct2" | "struct3");
     for it in if fixed_kind { vec![] } else { items(segs[2]) } {
         let toks: Vec<&str> = it.split_whitespace().collect();
         let (name, r, shape) = if kind == "map" {
@@ -128,6 +146,40 @@ fn run_bindrow(case: &str, ctx: &mut Ctx) -> String {
             };
             if cols.len() != eq.len() && !matches!(&r, Err(e) if bind_err_str(e) == "err WrongColumnCount") {
                 ctx.fail(format!("row-bind: {} values for {} bind markers was not refused as WrongColumnCount", eq.len(), cols.len()));
+            }
+            r
+        }
+        // derived structs (by name): the fields are the keys
+        "struct2" | "struct3" => {
+            let n = if kind == "struct2" { 2 } else { 3 };
+            if segs[2] != struct_shapes(n) {
+                return "bad-case struct-values".to_owned();
+            }
+            let t = tup3_value();
+            let fields: Vec<(&str, CqlValue)> = vec![
+                ("a", CqlValue::Int(t.0)),
+                ("b", CqlValue::Text(t.1.clone())),
+                ("c", CqlValue::List(t.2.iter().map(|x| CqlValue::Int(*x)).collect())),
+            ];
+            let fields = &fields[..n];
+            let all_found = cols.iter().all(|(name, _)| fields.iter().any(|(f, _)| f == name));
+            let unused: Vec<&str> = fields.iter().map(|(f, _)| *f).filter(|f| !cols.iter().any(|(name, _)| name == f)).collect();
+            fits_all = cols.iter().all(|(name, t)| fields.iter().find(|(f, _)| f == name).is_none_or(|(_, v)| dyn_fits(v, t)));
+            expected_ok = all_found && unused.is_empty() && fits_all;
+            let r = if n == 2 {
+                SerializedValues::from_serializable(&rctx, &RowAB { a: t.0, b: t.1.clone() })
+            } else {
+                SerializedValues::from_serializable(&rctx, &RowABC { a: t.0, b: t.1.clone(), c: t.2.clone() })
+            };
+            if r.is_ok() && !unused.is_empty() {
+                ctx.fail(format!(
+                    "row-bind: the bind succeeded although no bind marker takes the value of field(s) {:?}: the value was silently dropped (markers: {:?})",
+                    unused,
+                    cols.iter().map(|(n, _)| n.as_str()).collect::<Vec<_>>()
+                ));
+            }
+            if r.is_ok() && !all_found {
+                ctx.fail("row-bind: a bind marker without a like-named field was accepted".to_owned());
             }
             r
         }
